@@ -695,12 +695,12 @@ type casUpdatePrincipalCallback func(p Principal) (updatedPrincipal Principal, e
 func (auth *Authenticator) casUpdatePrincipal(p Principal, callback casUpdatePrincipalCallback) error {
 	var err error
 	for i := 1; i <= PrincipalUpdateMaxCasRetries; i++ {
-		updatedPrincipal, err := callback(p)
-		if err != nil {
-			if err == base.ErrUpdateCancel {
+		updatedPrincipal, callbackErr := callback(p)
+		if callbackErr != nil {
+			if callbackErr == base.ErrUpdateCancel {
 				return nil
 			} else {
-				return err
+				return callbackErr
 			}
 		}
 
@@ -710,22 +710,25 @@ func (auth *Authenticator) casUpdatePrincipal(p Principal, callback casUpdatePri
 		}
 
 		if !base.IsCasMismatch(saveErr) {
-			return err
+			return saveErr
 		}
+		// remember the CAS failure: it is the error reported if the retries are exhausted
+		err = saveErr
 
 		base.InfofCtx(auth.LogCtx, base.KeyAuth, "CAS mismatch in casUpdatePrincipal, retrying.  Principal:%s", base.UD(p.Name()))
 
+		var reloadErr error
 		switch p.(type) {
 		case User:
-			p, err = auth.GetUser(p.Name())
+			p, reloadErr = auth.GetUser(p.Name())
 		case Role:
-			p, err = auth.GetRole(p.Name())
+			p, reloadErr = auth.GetRole(p.Name())
 		default:
 			return fmt.Errorf("Unsupported principal type in casUpdatePrincipal (%T)", p)
 		}
 
-		if err != nil {
-			return fmt.Errorf("Error reloading principal after CAS failure: %w", err)
+		if reloadErr != nil {
+			return fmt.Errorf("Error reloading principal after CAS failure: %w", reloadErr)
 		}
 		if p == nil {
 			return base.ErrNotFound
